@@ -515,12 +515,16 @@ class Runner:
         with torch.no_grad():
             before = [out_proj(self.model(x)) for x in xs]
         pb = project_model(self.model)
+        # the float tensors freeze() reads: still referenced from here afterwards, they must not have been written
+        held = [(m.weight, digest(m.weight)) for _, m in leaf_modules(self.model)
+                if isinstance(m, QModuleMixin) and not isinstance(m.weight, QTensor)]
         freeze(self.model)
         with torch.no_grad():
             after = [out_proj(self.model(x)) for x in xs]
         ev["out_before"] = before
         ev["out_after"] = after
         ev["mods_before"] = pb
+        ev["float_weights_unchanged"] = all(digest(w) == d for w, d in held)
 
     def do_OptStep(self, a, ev):
         x = self.inputs["x1"]
